@@ -80,6 +80,17 @@ func (s *scen) name() string {
 	return fmt.Sprintf("N=%d bl=%d B=%d%s %s", s.N, s.BL, s.B, g, b)
 }
 
+func (s *scen) readersOnly() bool {
+	for _, p := range s.Progs {
+		for _, o := range p {
+			if o.Kind != opCond {
+				return false
+			}
+		}
+	}
+	return true
+}
+
 func (s *scen) interval() uint64       { return uint64(s.N) * uint64(s.BL) }
 func (s *scen) bstart(t uint64) uint64 { return t - t%uint64(s.BL) }
 func (s *scen) slot(t uint64) int      { return int((t / uint64(s.BL)) % uint64(s.N)) }
@@ -109,6 +120,8 @@ func (s *scen) setup() {
 	for j := 0; j < int(s.N); j++ {
 		s.arr.VerifAddCountWithTime(s.staleStart(j), cb.MetricEventPass, s.staleAmt(j))
 	}
+	// one conditional read before the threads start: whatever such a reader may keep between calls exists by then
+	_ = s.arr.ValuesConditional(s.staleStart(int(s.N)-1), func(uint64) bool { return true })
 	s.nStale = int(s.N)
 	s.ops = make([][]op, len(s.Progs))
 	f := s.nStale
@@ -382,10 +395,16 @@ func (s *scen) check(x *vsched.Exec) (string, string) {
 			// The returned slots are live pointers: their starts were read after the call. When no
 			// other operation overlapped this one nothing can have moved, and the set must be exactly
 			// the window's buckets: in particular no bucket that is a whole interval old.
+			// (Other conditional readers change nothing, so they do not count as overlap.)
 			alone := true
 			for _, x := range s.allOps() {
-				if x != o && !(x.ret < o.call || x.call > o.ret) {
+				if x != o && x.Kind != opCond && !(x.ret < o.call || x.call > o.ret) {
 					alone = false
+				}
+			}
+			for i := 1; i < len(o.starts); i++ {
+				if o.starts[i] == o.starts[i-1] {
+					return out, fmt.Sprintf("cond@%d returned bucket %d twice: its amounts would be duplicated or invented", o.T, o.starts[i])
 				}
 			}
 			if alone {
@@ -393,6 +412,24 @@ func (s *scen) check(x *vsched.Exec) (string, string) {
 					if !(st <= o.T && st+s.interval() > o.T) {
 						return out, fmt.Sprintf("cond@%d returned the expired bucket %d (window is (%d,%d])", o.T, st, int64(o.T)-int64(s.interval()), o.T)
 					}
+				}
+			}
+			onlyReaders := true
+			for _, x := range s.allOps() {
+				if x.Kind != opCond {
+					onlyReaders = false
+				}
+			}
+			if onlyReaders {
+				// nothing ever changes: the answer is exactly the filled buckets inside the reader's own window
+				var want []uint64
+				for j := 0; j < s.nStale; j++ {
+					if st := s.staleStart(j); st <= o.T && st+s.interval() > o.T {
+						want = append(want, st)
+					}
+				}
+				if fmt.Sprint(want) != fmt.Sprint(o.starts) {
+					return out, fmt.Sprintf("cond@%d returned the buckets %v, its window holds %v: amounts lost or invented (outside its window)", o.T, o.starts, want)
 				}
 			}
 		case opValues:
@@ -477,7 +514,9 @@ func (s *scen) scenario() *sched.Scenario {
 		Check:    s.check,
 		StateKey: s.stateKey,
 		MaxSteps: 5000, HorizonViolates: true,
-		POR: true,
+		// readers only: every atomic load is a choice point (the shared-location reduction would make the readers
+		// atomic, as nothing they touch is written), so state a reader keeps in plain memory shows
+		POR: !s.readersOnly(),
 	}
 }
 
@@ -557,7 +596,13 @@ func scenarios(c *props.Ctx) []*scen {
 		}
 		// class A': a non-refreshing conditional reader against every two-op program, and on its own
 		for _, t := range ts {
-			out = append(out, &scen{N: g.N, BL: g.BL, B: g.B, Progs: [][]op{{{Kind: opCond, T: t}}, {{Kind: opCond, T: t}}}, Bound: -1})
+			out = append(out, &scen{N: g.N, BL: g.BL, B: g.B, Progs: [][]op{{{Kind: opCond, T: t}}, {{Kind: opCond, T: t}}}, Bound: 2})
+			if t != ts[0] {
+				// two conditional readers whose windows differ (the older reader still sees the bucket that has
+				// expired for the newer one), and three of them
+				out = append(out, &scen{N: g.N, BL: g.BL, B: g.B, Progs: [][]op{{{Kind: opCond, T: ts[0]}}, {{Kind: opCond, T: t}}}, Bound: 2})
+				out = append(out, &scen{N: g.N, BL: g.BL, B: g.B, Progs: [][]op{{{Kind: opCond, T: ts[0]}}, {{Kind: opCond, T: t}}, {{Kind: opCond, T: ts[0]}}}, Bound: 2})
+			}
 			for i := 0; i < len(p2); i++ {
 				if hasAdd(p2[i]) {
 					out = append(out, &scen{N: g.N, BL: g.BL, B: g.B, Progs: [][]op{p2[i], {{Kind: opCond, T: t}}}, Bound: -1})
